@@ -4,6 +4,7 @@ import json, os, subprocess
 V = os.path.dirname(os.path.dirname(os.path.abspath(__file__)))
 
 # id -> (built?, level category, technique, level text, level note, design ref)
+M="runtime monitoring: executable reference model compared with the real executor on output, error-or-not"
 P = {
  "C01": (True, "exploration", "runtime monitoring: step-budget hooks + Go deadlock detector + crash-isolating worker processes over prefix/fragment-mutation/bounded-exhaustive/random inputs",
          "Every input is parsed through three entry points in worker processes; any process death, recovered panic, runtime deadlock, step-budget or CPU-budget overrun is a violation. Bounded-exhaustive over the fragment alphabet (<=3 quick, <=5 thorough), every prefix and single-fragment mutation of the corpus; sampled beyond that.",
@@ -26,6 +27,27 @@ P = {
  "C05": (True, "exploration", "runtime monitoring: reference evaluator (executable model) compared on printed value, error-or-not and the recorded callback log of a recording environment",
          "Exhaustive depth-1 operator x operand table plus typed random expression trees (depth<=4 quick, <=6 thorough) with recording functions/filters/tests; the callback log must match exactly (name, arguments in order, piped value first).",
          "The model encodes the documented semantics inside the agreement region; trees it refuses are regenerated.", "DESIGN.md#c05"),
+ "C03": (True, "exploration", "%s; generated templates whose leaves are hostile literal chunks, comments and verbatim bodies" % M,
+         "Seeded structure trees of literal chunks (multi-byte, newlines, lone and closing delimiters) interleaved with prints, comments and verbatim bodies, nested in if/for/block/set/filter/macro bodies to depth 4, spelled with and without inner blanks; byte-exact comparison with the model.",
+         "Dynamic parts are trivial by construction; invalid UTF-8 in text is left to C01.", "DESIGN.md#c03"),
+ "C06": (True, "exploration", "%s; enumerated if-chains / sequence kinds x lengths x loop forms, random nestings" % M,
+         "Exhaustive within the bound: every if-chain shape x truth assignment, every sequence kind x length 0..8 x loop form with all loop fields printed at every position, every inline-if mask for n<=5, non-iterables; random nestings to depth 4.",
+         "Loop fields inside inline-if bodies and the else of a fully filtered loop are not claimed (stick and Twig differ).", "DESIGN.md#c06"),
+ "C07": (True, "exploration", "%s; a registered probe function reads Context.Scope() after every statement" % M,
+         "Seeded nestings of set/for/if/macro over a 4-name pool with collisions; visibility and value of every pool name observed after every statement, at loop and macro body starts.",
+         "Assignments to shadowed names, reads before first set in later iterations and macro bodies reading outer variables are excluded (left open by the statement).", "DESIGN.md#c07"),
+ "C08": (True, "exploration", "%s and recorded filter-callback log; unique markers on every text run and print" % M,
+         "Every nesting of the five capture kinds to depth 2 (quick) / 3 (thorough) x 3 continuations, random nestings to depth 5 incl. loops and values passed on; any misrouted, duplicated or lost byte shows as a marker mismatch.",
+         "block() only targets leaf blocks; macro bodies use only their parameter.", "DESIGN.md#c08"),
+ "C09": (True, "exploration", "%s and recorded Context.Name() of a callback in every block body; bounded-exhaustive inheritance configurations" % M,
+         "All override patterns {absent, override, override+parent()} for chains L<=3,B<=2 (quick) / L<=4,B<=4 (thorough) x layouts x use variants; random larger shapes with block() and nested blocks in loops.",
+         "use only in extending templates; aliased originals unique.", "DESIGN.md#c09"),
+ "C10": (True, "exploration", "%s with scope probes in host and target; exhaustive product of include/embed forms, call sites, targets and override subsets" % M,
+         "2 x 5 x 6 x 5 x 4 x 2 coordinates all run in quick, random nested include-in-embed-in-include on top; host variables probed after the construct, target variables probed inside.",
+         "Macro call sites use the only forms.", "DESIGN.md#c10"),
+ "C11": (True, "exploration", "%s, recorded callback log, and metamorphic comparison of the call forms" % M,
+         "params 0..4 x args 0..6 x 4 call forms x 6 uses exhaustively, unknown-macro errors, random acyclic macro nests.",
+         "Stated exclusions (_self through imports, definitions before calls, bodies use parameters only).", "DESIGN.md#c11"),
 }
 NOT_BUILT_REASON = "check not built yet in this round (planned: see DESIGN.md section for this property)"
 
